@@ -1399,10 +1399,10 @@ func mutateText(r *Rng, e *Expr) *Expr {
 	case 2:
 		rs = rs[:r.Intn(len(rs))]
 	case 3:
-		return &Expr{K: KRaw, S: pick(r, []string{"", " ", "a..b", "foo[", "abs(`1`, `2`)", "nosuchfn(@)", "a[::0]", "`{bad json`", "'unterminated", "\"x", "a | | b", "let $x = in $x", "$", "@", "*", "a.b.c", "[0]", "{a: b}", "a[?b]", "&a", "sort_by(a, b)", "map(a, b)", "length(@, @)", "a[1:2:3:4]", "a.`1`", "`1` + ", "!"})}
+		return &Expr{K: KRaw, S: pick(r, []string{"", " ", "a..b", "foo[", "\"a\\uD834\\uZZZZ\"", "\"\\uD800\"", "\"\\u12\"", "\"a\\qb\"", "a # b", "a ; b", "a ^ b", "~a", "a ? b", "a \\ b", "a\x01b", "\u00e9", "a \u00ff b", "'a\\", "a.\"b\\\"", "`[1,`", "a[?b ==]", "a[1:2:0]", "abs(", "$.", "a.[", "{a}", "let $a in b", "a ||", "&&b", "abs(`1`, `2`)", "nosuchfn(@)", "a[::0]", "`{bad json`", "'unterminated", "\"x", "a | | b", "let $x = in $x", "$", "@", "*", "a.b.c", "[0]", "{a: b}", "a[?b]", "&a", "sort_by(a, b)", "map(a, b)", "length(@, @)", "a[1:2:3:4]", "a.`1`", "`1` + ", "!"})}
 	default:
 		i := r.Intn(len(rs))
-		rs[i] = pick(r, []rune("()[]{}.,|&`'\"$@*?:=<>!+-/% abz09_"))
+		rs[i] = pick(r, []rune("()[]{}.,|&`'\"$@*?:=<>!+-/% abz09_#;^~\\\x01\u00e9\u00ff"))
 	}
 	return &Expr{K: KRaw, S: string(rs)}
 }
